@@ -40,27 +40,13 @@ META = {
     "assumptions": ["losses are finite and not -0.0; the loss shape is constant along a run",
                     "float decisions that flip under rounding (exact (last-loss)/loss vs threshold differs from the "
                     "float evaluation) are regenerated, not compared"],
-    "partial": ["clause 'reset restores the initial state': FALSE for the code as written (ReduceToBason.reset leaves "
-                "patience_count stale) — Lean has rtb_reset_initial_partial (all other fields), "
-                "rtb_reset_run_eq_fresh (behaviour equal to fresh when the first step is not a non-decrease), "
-                "rtb_reset_continual_iff (exact behaviour) and the counterexample rtb_reset_not_initial; the harness "
-                "reports the concrete failing histories (GENUINE DEFECT in notes/C20.md)",
-                "StopOnPlateau has no reset(); the reset clause is vacuous for it",
+    "partial": ["StopOnPlateau/_Scheduler has no reset() in /repo: for it the 'until reset' part of the clause has no "
+                "implementation; 'once false it stays false' is proved and checked unconditionally for it",
                 "IEEE rounding of (last-loss)/loss is not modelled: theorems over R, float code compared on inputs "
-                "whose decision does not flip under rounding"],
+                "whose decision does not flip under rounding (others regenerated, counted in input_distribution)",
+                "graph stream: exhaustive to length 12/16 through state merging (every reachable (steps, patience_count, "
+                "continual[, last=inf?]) state x every letter); literal enumeration of all words only to length 4..8"],
 }
-
-DEFECT_SITE = "pypose/utils/stepper.py:_Stepper.reset"
-
-
-def reset_matcher(kf, case) -> bool:
-    """recognises exactly the stale-patience_count defect of _Stepper.reset: the call site is reset() and the
-    only deviation from a fresh controller is explained by patience_count > 0 surviving the reset."""
-    return (kf.get("property") == "C20" and "_Stepper.reset" in str(kf.get("site", ""))
-            and "patience_count" in str(kf.get("predicate", ""))
-            and case.get("site") == DEFECT_SITE and int(case.get("pc_before_reset", 0)) > 0
-            and case.get("only_patience_count_stale") is True)
-
 
 def pp():
     import pypose
@@ -85,28 +71,6 @@ def new_sop(cfg, opt):
 def new_rtb(cfg):
     return pp().utils.ReduceToBason(steps=cfg["steps"], patience=cfg["patience"], decreasing=cfg["d"],
                                     tol=cfg["tol"])
-
-
-_RESET_TOKEN = None
-
-
-def reset_token(ctx=None) -> str:
-    """which reset semantics the code under test has for patience_count: 'R' = left as is (the code today),
-    'Z' = cleared (a repaired reset). Observed once on a real ReduceToBason; only selects the model variant for the
-    correspondence streams — the property oracles always demand the initial state."""
-    global _RESET_TOKEN
-    if _RESET_TOKEN is None:
-        st = new_rtb({"steps": 5, "patience": 9, "d": 1e-3, "tol": 1e-5})
-        st.step(1.0)
-        st.step(1.0)
-        st.step(1.0)
-        before = st.patience_count
-        st.reset()
-        _RESET_TOKEN = "Z" if (before > 0 and st.patience_count == 0) else "R"
-        if ctx is not None:
-            ctx.count("reset_variant." + ("clears_patience_count" if _RESET_TOKEN == "Z" else "keeps_patience_count"))
-            ctx.notes.append(f"reset() observed to {'clear' if _RESET_TOKEN == 'Z' else 'keep'} patience_count; model variant {_RESET_TOKEN}")
-    return _RESET_TOKEN
 
 
 def key_of(ctl, kind):
@@ -243,7 +207,7 @@ def run_graph(ctx: Ctx, kind: str, cfgs, depth: int):
             metas.append([i for i in info if i[0] == "step"])
         for i in info:
             if i[0] == "reset":
-                lines.append(f"c20.trace rtb {steps} {patience} {i[1]['before']} {reset_token(ctx)}")
+                lines.append(f"c20.trace rtb {steps} {patience} {i[1]['before']} R")
                 metas.append([i])
     reps = ctx.driver.run(lines)
     for rep, ms in zip(reps, metas):
@@ -258,6 +222,13 @@ def run_graph(ctx: Ctx, kind: str, cfgs, depth: int):
                              f"{U.st_decode(after)} model {U.st_decode(w)}")
     if cfgs:
         ctx.sample({"stream": f"graph.{kind}", "config": list(cfgs[0]), "depth": depth})
+
+
+def ctx_last(ctl):
+    try:
+        return U.flat(ctl.last)[:4]
+    except Exception:
+        return repr(getattr(ctl, "last", None))
 
 
 def graph_transition(ctx, ctl, case, pairs, info, opt) -> bool:
@@ -284,12 +255,9 @@ def graph_transition(ctx, ctl, case, pairs, info, opt) -> bool:
     if obs is None:  # reset
         info.append(("reset", case, after))
         last_ok = torch.is_tensor(ctl.last) and bool(torch.isinf(ctl.last).all()) and bool((ctl.last > 0).all())
-        if a_s != 0 or not a_cont or not last_ok:
-            ctx.fail(case, f"reset-state: after reset() steps={a_s} continual={a_cont} last={ctl.last}")
-        elif a_pc != 0:
-            c2 = dict(case, site=DEFECT_SITE, pc_before_reset=bpc, only_patience_count_stale=True)
-            ctx.fail(c2, f"reset-patience_count: reset() leaves patience_count={a_pc} (initial state has 0); "
-                         f"steps, last, continual are restored", known_matcher=reset_matcher)
+        if a_s != 0 or a_pc != 0 or not a_cont or not last_ok:
+            ctx.fail(case, f"reset-state: after reset() from {(bs, bpc, bcont)}: steps={a_s} patience_count={a_pc} "
+                           f"continual={a_cont} last={ctx_last(ctl)} (initial state: 0, 0, True, inf)")
         return True
     pairs.append((before, U.obs_code(*obs)))
     info.append(("step", case, after))
@@ -550,14 +518,9 @@ def check_rtb_num(ctx: Ctx, case, model_reply=None) -> bool:
                 code = U.ctl_code(st)
                 s_, pc_, c_ = U.st_decode(code)
                 last_ok = torch.is_tensor(st.last) and bool(torch.isinf(st.last).all()) and bool((st.last > 0).all())
-                if s_ != 0 or not c_ or not last_ok:
-                    ctx.fail(dict(case, event=ei), f"reset-state: after reset() steps={s_} continual={c_} last={st.last}")
-                    ok = False
-                elif pc_ != 0:
-                    ctx.fail(dict(case, event=ei, site=DEFECT_SITE, pc_before_reset=pc_before,
-                                  only_patience_count_stale=True),
-                             f"reset-patience_count: reset() leaves patience_count={pc_} (initial state has 0); steps, "
-                             f"last, continual are restored", known_matcher=reset_matcher)
+                if s_ != 0 or pc_ != 0 or not c_ or not last_ok:
+                    ctx.fail(dict(case, event=ei), f"reset-state: after reset() steps={s_} patience_count={pc_} (was "
+                                                   f"{pc_before}) continual={c_} last={ctx_last(st)} (initial state: 0, 0, True, inf)")
                     ok = False
                 segs.append({"pc0": pc_, "obs": [], "codes": [], "start": ei + 1})
                 last = None
@@ -590,17 +553,9 @@ def check_rtb_num(ctx: Ctx, case, model_reply=None) -> bool:
             continue
         ok = False
         j = next((i for i, (a, b) in enumerate(zip(got, fresh)) if a != b), 0)
-        stale = spec_trace_segment("rtb", case["steps"], case["patience"], sg["obs"], sg["pc0"])
         what = (f"segment {si} (after {'reset' if si else 'construction'}), step {j + 1}: (continual, patience_count)="
                 f"{got[j] if got else None}, a fresh controller per the documented causes gives {fresh[j] if fresh else None}")
-        if si > 0 and sg["pc0"] > 0 and got == stale and steps_ok:
-            flag_differs = [g[0] for g in got] != [f[0] for f in fresh]
-            ctx.fail(dict(case, segment=si, site=DEFECT_SITE, pc_before_reset=sg["pc0"], only_patience_count_stale=True),
-                     ("reset-behaviour: continual() after reset differs from a fresh controller; " if flag_differs else
-                      "reset-patience_count: counter after reset differs from a fresh controller; ") + what,
-                     known_matcher=reset_matcher)
-        else:
-            ctx.fail(dict(case, segment=si), "continual: " + what)
+        ctx.fail(dict(case, segment=si), ("reset-behaviour: " if si else "continual: ") + what)
     case_model = model_reply
     if case_model is not None:
         st_, toks = common.parse_reply(case_model)
@@ -627,7 +582,7 @@ def rtb_num_line(case):
     B = int(math.prod(case["shape"])) if case["shape"] else 1
     toks = []
     for ev in case["events"]:
-        toks.append(reset_token() if ev[0] == "R" else "S " + common.wire_list(ev[1]))
+        toks.append("R" if ev[0] == "R" else "S " + common.wire_list(ev[1]))
     return (f"c20.rtb.num {case['steps']} {case['patience']} {to_wire(case['D'])} {to_wire(case['TOL'])} {B} "
             + " ".join(toks))
 
@@ -1117,7 +1072,7 @@ def check_mpc(ctx: Ctx, case):
             return None
         check_rtb_loop_oracles(ctx, dict(case, call=ci), "MPC.forward", "lqr", eff, case["patience"], case["steps"], obs,
                                iters, lqr_calls, pc0, st, codes)
-        out.append((loop_line("mpc" if reset_token() == "R" else "mpc0", case["steps"], case["patience"], case["k_inits"], code0, [U.obs_code(*o) for o in obs]),
+        out.append((loop_line("mpc", case["steps"], case["patience"], case["k_inits"], code0, [U.obs_code(*o) for o in obs]),
                     iters, lqr_calls, U.ctl_code(st)))
     return out
 
@@ -1148,15 +1103,9 @@ def check_rtb_loop_oracles(ctx, case, name, kernel, eff_steps, patience, nominal
         return
     if fresh == iters:
         return
-    stale = spec_trace_segment("rtb", eff_steps, patience, obs, pc0)
-    stale_first = next((i + 1 for i, (c, _) in enumerate(stale) if not c), None)
-    what = (f"{name} stopped after {iters} controller steps; a fresh controller stops at the first documented cause, step "
-            f"{fresh} (budget {eff_steps}, patience {patience}, observations (nodec, below)={[(o[0], o[1]) for o in obs]})")
-    if pc0 > 0 and stale_first == iters:
-        ctx.fail(dict(case, site=DEFECT_SITE, pc_before_reset=pc0, only_patience_count_stale=True),
-                 "reset-behaviour: " + what + f"; explained by patience_count={pc0} surviving reset()", known_matcher=reset_matcher)
-    else:
-        ctx.fail(case, "loop-count: " + what)
+    ctx.fail(case, f"loop-count: {name} stopped after {iters} controller steps; a fresh controller stops at the first "
+                   f"documented cause, step {fresh} (budget {eff_steps}, patience {patience}, patience_count before the call "
+                   f"{pc0}, observations (nodec, below)={[(o[0], o[1]) for o in obs]})")
 
 
 def run_drv_mpc(ctx: Ctx, n_cases, n_real):
@@ -1271,7 +1220,7 @@ def check_icp(ctx: Ctx, case):
                 return None
             check_rtb_loop_oracles(ctx, dict(case, call=ci), "ICP.forward", "svdtf", case["steps"], case["patience"],
                                    case["steps"], obs, len(rec), n_svd[0], pc0, st, codes)
-            out.append((loop_line("icp" if reset_token() == "R" else "icp0", case["steps"], case["patience"], 0, code0, [U.obs_code(*o) for o in obs]),
+            out.append((loop_line("icp", case["steps"], case["patience"], 0, code0, [U.obs_code(*o) for o in obs]),
                         len(rec), n_svd[0], U.ctl_code(st)))
     finally:
         icpmod.knn, icpmod.svdtf = oknn, osvd
@@ -1299,7 +1248,7 @@ def run_drv_icp(ctx: Ctx, n_cases):
 # ============================================================================= entry points
 
 CORPUS = [
-    # minimal reproduction of the reset defect (stale patience_count): stops on patience, reset, negative loss
+    # minimal reproduction of defect D31 (repaired): stops on patience, reset, negative first loss
     {"kind": "num.rtb", "steps": 10, "patience": 2, "d": 1e-3, "tol": -100.0, "D": 1e-3, "TOL": -100.0, "vkind": "t0d",
      "dtype": "float64", "shape": [], "events": [["S", [1.0]], ["S", [1.0]], ["S", [1.0]], ["R"], ["S", [-1.0]], ["S", [-2.0]]]},
     # boundaries: ratio == decreasing exactly, loss == tol exactly, zero loss, batch where one element decides
@@ -1312,7 +1261,6 @@ CORPUS = [
 def run(ctx: Ctx):
     rng = ctx.rng
     q = ctx.quick
-    reset_token(ctx)
     # corpus first
     reps = ctx.driver.run([rtb_num_line(c) for c in CORPUS])
     for c, rep in zip(CORPUS, reps):
@@ -1357,7 +1305,7 @@ def search(ctx: Ctx):
     for _ in range(3000):
         check_rtb_num(ctx, gen_rtb_case(ctx, 80))
         check_sop_num(ctx, gen_sop_case(ctx, 80))
-        if any(not f["what"].startswith("reset-") for f in ctx.failures[n0:]):
+        if len(ctx.failures) > n0:
             return
     for _ in range(300):
         check_opt_scripted(ctx, gen_opt_case(ctx))
@@ -1369,7 +1317,7 @@ def search(ctx: Ctx):
 
 def replay(ctx: Ctx, case) -> bool:
     c = dict(case["case"])
-    for k in ("site", "pc_before_reset", "only_patience_count_stale", "event", "segment", "call", "recorded", "step"):
+    for k in ("event", "segment", "call", "recorded", "step"):
         c.pop(k, None)
     kind = c.get("kind")
     n0 = len(ctx.failures)
